@@ -788,6 +788,15 @@ struct ConcRun
             sched::sim_thread(false);
             return;
         }
+        if (sched::bad_unlocks() && status != sched::ST_DEADLOCK)
+        {
+            fail({"C06"}, "conc.unlock_without_ownership",
+                 "the container's lock was released " + std::to_string(sched::bad_unlocks()) +
+                     " time(s) by a thread that did not hold it (double unlock or unlock on a path that never locked): "
+                     "whoever holds it then loses mutual exclusion");
+            sched::sim_thread(false);
+            return;
+        }
         if (status == sched::ST_STEP_BUDGET)
         {
             fail({"C06"}, "conc.step_budget", "the run did not finish within the step budget (livelock)");
@@ -939,6 +948,147 @@ struct ConcRun
                 if (o.op.kind == OpKind::capacity && !r.empty() && r[0] != (int64_t)plan.cfg.capacity)
                     fail({"C02", "C06"}, "conc.capacity_changed",
                          "capacity() returned " + std::to_string(r[0]) + " to client " + std::to_string(o.client));
+            }
+            // ---- retention (C03; C05 for the TTL containers): a key that the prefill leaves resident, that no call
+            //      of the plan erases or clears, that cannot be evicted (all keys ever written fit) and whose every
+            //      write outlives the run, is found by every lookup whatever the order of the calls.  And a key
+            //      cannot be erased successfully more often than it can have come into being.
+            if (!out.v.any())
+            {
+                std::set<int>  written, erasable;
+                bool           cleared = false;
+                int64_t        ttl_min = plan.cfg.ttl_ms;
+                std::map<int, int64_t> min_entry_ttl; // per-entry TTL containers: shortest TTL any write of the key carries
+                std::map<int, bool>    resident;      // after the prefill, going by the plan
+                auto scan = [&](const Op& o, bool prefill) {
+                    switch (o.kind)
+                    {
+                        case OpKind::insert:
+                            written.insert(o.key);
+                            if (!min_entry_ttl.count(o.key) || o.ttl_ms < min_entry_ttl[o.key])
+                                min_entry_ttl[o.key] = o.ttl_ms;
+                            if (prefill && o.allow == ALLOW_BOTH)
+                                resident[o.key] = true;
+                            break;
+                        case OpKind::insert_range:
+                            for (auto& it : o.items)
+                            {
+                                written.insert(it.key);
+                                if (!min_entry_ttl.count(it.key) || it.ttl_ms < min_entry_ttl[it.key])
+                                    min_entry_ttl[it.key] = it.ttl_ms;
+                                if (prefill && o.allow == ALLOW_BOTH)
+                                    resident[it.key] = true;
+                            }
+                            break;
+                        case OpKind::erase:
+                            erasable.insert(o.key);
+                            if (prefill)
+                                resident[o.key] = false;
+                            break;
+                        case OpKind::erase_range:
+                            for (auto& it : o.items)
+                            {
+                                erasable.insert(it.key);
+                                if (prefill)
+                                    resident[it.key] = false;
+                            }
+                            break;
+                        case OpKind::clear:
+                            cleared = true;
+                            break;
+                        case OpKind::update_ttl:
+                            ttl_min = std::min(ttl_min, o.ttl_ms);
+                            break;
+                        default:
+                            break;
+                    }
+                };
+                // (an erase or clear in the prefill makes the key / the plan ineligible as well: keep the rule simple)
+                for (auto& o : plan.prefill)
+                    scan(o, true);
+                for (auto& e : plan.epochs)
+                    for (auto& c : e.clients)
+                        for (auto& o : c)
+                            scan(o, false);
+                const bool no_evict = !tr.has_capacity || written.size() <= plan.cfg.capacity;
+                auto       retained = [&](int k) {
+                    if (cleared || !no_evict || erasable.count(k))
+                        return false;
+                    auto it = resident.find(k);
+                    if (it == resident.end() || !it->second)
+                        return false;
+                    if (tr.ttl == TtlMode::per_entry)
+                        return plan.clock_start + min_entry_ttl[k] * MS > tend;
+                    if (tr.ttl == TtlMode::uniform)
+                        return plan.clock_start + ttl_min * MS > tend;
+                    return true;
+                };
+                const bool timed_c = tr.ttl != TtlMode::none;
+                auto       rfail   = [&](const char* check, const std::string& detail) {
+                    if (timed_c)
+                        fail({"C03", "C05", "C06"}, check, detail);
+                    else
+                        fail({"C03", "C06"}, check, detail);
+                };
+                bool any_retained = false;
+                for (int k = 0; k < (int)plan.cfg.universe; ++k)
+                    any_retained = any_retained || retained(k);
+                if (any_retained)
+                {
+                    out.st.counters["eval.C03"]++;
+                    if (tr.ttl != TtlMode::none)
+                        out.st.counters["eval.C05"]++;
+                    if (in_flight_switches)
+                    {
+                        out.st.nontrivial.insert("C03");
+                        if (tr.ttl != TtlMode::none)
+                            out.st.nontrivial.insert("C05");
+                    }
+                    out.st.bump("probe.conc_retained_keys_checked");
+                }
+                for (auto& o : hist)
+                {
+                    if (!o.completed || o.client < 0 || out.v.any() || !any_retained)
+                        continue;
+                    const Result& r = o.res;
+                    if ((o.op.kind == OpKind::find || o.op.kind == OpKind::find_uc) && !r.empty() && !r[0] && retained(o.op.key))
+                        rfail("conc.retained_key_lost",
+                             "lookup of key " + std::to_string(o.op.key) + " by client " + std::to_string(o.client) +
+                                 " missed although the key was resident before the clients started, is never erased, cannot be evicted and cannot have expired");
+                    if (o.op.kind == OpKind::find_range || o.op.kind == OpKind::find_fill)
+                        for (size_t i = 0; i + 3 <= r.size(); i += 3)
+                            if (!r[i + 1] && retained((int)r[i]) && !out.v.any())
+                                rfail("conc.retained_key_lost",
+                                     "range lookup by client " + std::to_string(o.client) + " missed key " + std::to_string(r[i]) +
+                                         " although the key was resident before the clients started, is never erased, cannot be evicted and cannot have expired");
+                }
+                for (int k = 0; k < (int)plan.cfg.universe && !out.v.any(); ++k)
+                    if (retained(k) && !final_conc[(size_t)k * 3])
+                        rfail("conc.retained_key_lost_final",
+                             "after the run key " + std::to_string(k) +
+                                 " is gone although it was resident before the clients started, is never erased, cannot be evicted and cannot have expired");
+                // successful erases of a key <= 1 (if it can be resident at the start) + calls that can create it
+                if (!out.v.any())
+                {
+                    std::map<int, int64_t> creations, erased;
+                    for (auto& o : hist)
+                    {
+                        if (o.client < 0)
+                            continue;
+                        if (o.op.kind == OpKind::insert && (o.op.allow & ALLOW_INSERT) && (!o.completed || (!o.res.empty() && o.res[0])))
+                            creations[o.op.key]++;
+                        if (o.op.kind == OpKind::insert_range && (o.op.allow & ALLOW_INSERT))
+                            for (auto& it : o.op.items)
+                                creations[it.key]++;
+                        if (o.op.kind == OpKind::erase && o.completed && !o.res.empty() && o.res[0])
+                            erased[o.op.key]++;
+                    }
+                    for (auto& kv : erased)
+                        if (kv.second > 1 + creations[kv.first])
+                            fail({"C03", "C06"}, "conc.erase_succeeded_too_often",
+                                 "erase of key " + std::to_string(kv.first) + " returned true " + std::to_string(kv.second) +
+                                     " times but the key can have come into being only " + std::to_string(1 + creations[kv.first]) + " time(s)");
+                }
             }
             if (!out.v.any())
             {
@@ -1111,7 +1261,13 @@ struct CGen
 
     explicit CGen(uint64_t seed) : r(seed) {}
 
+    bool     retain{false};
     int     key() { return (int)r.below(p.cfg.universe); }
+    int     upper_key()
+    {
+        int lo = (int)(p.cfg.universe + 1) / 2;
+        return lo >= (int)p.cfg.universe ? lo : lo + (int)r.below(p.cfg.universe - (uint32_t)lo);
+    }
     int64_t ttl() { return r.pick(ttls); }
     int     allow()
     {
@@ -1178,9 +1334,14 @@ struct CGen
                 break;
             case OpKind::erase:
                 o.key = key();
+                if (retain)
+                    o.key = upper_key();
                 break;
             case OpKind::erase_range:
                 o.items = items(false, 2);
+                if (retain)
+                    for (auto& it : o.items)
+                        it.key = upper_key();
                 o.form  = form(k);
                 break;
             case OpKind::find:
@@ -1269,6 +1430,7 @@ struct CGen
         c.tick_ms                    = ticks[r.below(3)];
         static const double ratios[] = {0.0, 0.5, 0.5, 1.0};
         c.ratio                      = ratios[r.below(4)];
+        retain                       = false;
         p.clock_start                = r.chance(1, 2) ? 0 : (int64_t)r.below(1000000000000ULL);
         p.rd.clear();
         for (int i = 0; i < 4; ++i)
@@ -1281,6 +1443,8 @@ struct CGen
         bool timed = tr.ttl != TtlMode::none || tr.policy == Policy::lfuda;
         if (!timed)
             return 0;
+        if (retain && tr.ttl != TtlMode::none)
+            return r.chance(1, 2) ? 0 : r.range(1, 2 * MS);
         int64_t unit = (tr.policy == Policy::lfuda ? p.cfg.tick_ms : std::max<int64_t>(1, p.cfg.ttl_ms)) * MS;
         switch (r.below(5))
         {
@@ -1297,14 +1461,36 @@ struct CGen
         }
     }
 
-    ConcPlan random_plan(Cont cont, bool tsan, bool thorough)
+    ConcPlan random_plan(Cont cont, bool tsan, bool thorough, const std::string& prop = "")
     {
         p.cfg.cont = cont;
         tr         = traits_of(cont);
         config(tsan, thorough);
         auto ks    = kinds();
+        // retention plans (C03 / C05): every key fits, lifetimes outlast the run, the lower half of the keys is
+        // resident from the start and never erased: whatever the interleaving, those keys must be found
+        retain = (prop == "C03" || prop == "C05") && r.chance(2, 3);
+        if (retain)
+        {
+            if (tr.has_capacity)
+                p.cfg.capacity = p.cfg.universe = (uint32_t)r.range(2, 5);
+            ttls       = {1000, 3600000};
+            p.cfg.ttl_ms = ttl();
+            ks.erase(std::remove(ks.begin(), ks.end(), OpKind::clear), ks.end());
+            if (prop == "C03")
+                for (int i = 0; i < 3; ++i)
+                    ks.push_back(OpKind::erase);
+            // every key resident at the start (they all fit): the upper half is what the clients erase
+            for (int k = 0; k < (int)p.cfg.universe; ++k)
+            {
+                Op o = op(OpKind::insert);
+                o.key   = k;
+                o.allow = ALLOW_BOTH;
+                p.prefill.push_back(o);
+            }
+        }
         p.nclients = (int)r.range(2, thorough ? 4 : 3);
-        size_t npf = (size_t)r.range(0, (int64_t)p.cfg.capacity + 1);
+        size_t npf = retain ? 0 : (size_t)r.range(0, (int64_t)p.cfg.capacity + 1);
         for (size_t i = 0; i < npf; ++i)
             p.prefill.push_back(op(r.chance(3, 4) ? OpKind::insert : r.pick(ks)));
         size_t ne = (size_t)r.range(1, thorough ? 3 : 2);
@@ -1568,7 +1754,7 @@ js::Value conc_genplan(const std::string& world, const std::string& prop, uint64
     // a property that speaks about some containers only gets its concurrent runs on those
     GenProfile prof = profile_for(prop, thorough);
     Cont       cont = g.r.pick(prof.conts);
-    return g.random_plan(cont, conc_is_tsan_build(), thorough).to_json();
+    return g.random_plan(cont, conc_is_tsan_build(), thorough, prop).to_json();
 }
 
 // Once per process: a fixed single-threaded workload over every thread_safe::yes instantiation
